@@ -187,7 +187,7 @@ def show_res(r):
 def show_py(p):
     if p[0] == 1:
         k, x = p[1]
-        return {0: "%d" % x, 2: repr(b2f(x)), 3: str(bool(x))}[k] if k != 2 else repr(b2f(x))
+        return repr(b2f(x)) if k == 2 else (str(bool(x)) if k == 3 else "%d" % x)
     if p[0] == 2:
         return "raises " + ["ZeroDivisionError", "TypeError", "OverflowError"][p[1]]
     return "an integer beyond 2**128" if p[0] == 4 else "(not modelled)"
